@@ -295,3 +295,21 @@ def fixture_check(tier):
 
 
 TASK.fixture_check = fixture_check
+
+
+# ---------------------------------------------------------------------------------- edge relations (C08 / C09)
+def edge_space(tier, phase):
+    from mc import lib
+    notes = [n for n in TT.dyadic_notes(phase, vels=(0.0, 127.0)) if n[0] <= TT.dyadic_notes(phase)[2][0] + 1e-9]
+    sides = list(lib.multisets(notes[:12], 2))
+    return [(a, b) for a in sides for b in sides]
+
+
+TASK.edge_space = edge_space
+# shifting all times or scaling all pitches changes neither the note matching nor the velocities, so every key is
+# claimed; note permutations are not claimed here: the velocity regression depends on WHICH maximum matching is
+# returned (see finding F27)
+TASK.edges = {
+    "shift": {"apply": TT._shift_edges, "funcs": None, "keys": None},
+    "pitchscale": {"apply": TT._scale_edges, "funcs": None, "keys": None},
+}
